@@ -25,6 +25,10 @@ from typing import Any, Dict
 
 from nemoguardrails.colang.v2_x.lang import colang_ast as colang_ast_module
 from nemoguardrails.colang.v2_x.runtime import flows as flows_module
+from nemoguardrails.colang.v2_x.runtime.eval import (
+    COMPARISON_OPERATORS,
+    ComparisonExpression,
+)
 from nemoguardrails.colang.v2_x.runtime.flows import Action, State
 from nemoguardrails.colang.v2_x.runtime.statemachine import _flow_head_changed
 from nemoguardrails.rails.llm.config import RailsConfig
@@ -134,6 +138,8 @@ def encode_to_dict(obj: Any, refs: Dict[int, Any]):
             value = {"__type": "set", "value": [encode_to_dict(v, refs) for v in obj]}
         elif isinstance(obj, re.Pattern):
             value = {"__type": "regex", "pattern": obj.pattern, "flags": obj.flags}
+        elif isinstance(obj, ComparisonExpression) and obj.name in COMPARISON_OPERATORS:
+            value = {"__type": "comparison", "op": obj.name, "value": obj.value}
         else:
             raise Exception(f"Unhandled type in encode_to_dict: {type(obj)}")
 
@@ -213,6 +219,9 @@ def decode_from_dict(d: Any, refs: Dict[int, Any]):
 
             elif d_type == "regex":
                 value = re.compile(d["pattern"], d["flags"])
+
+            elif d_type == "comparison":
+                value = COMPARISON_OPERATORS[d["op"]](d["value"])
 
             elif d_type == "set":
                 value = set(decode_from_dict(d["value"], refs))
